@@ -21,6 +21,16 @@ impl Emitter for FilesWithBackupEmitter {
             // original.
             let tmp_name = filename.with_extension("tmp");
             let bk_name = filename.with_extension("bk");
+            if tmp_name == filename || bk_name == filename {
+                // The dance below would overwrite the only copy of the original.
+                return Err(io::Error::new(
+                    io::ErrorKind::InvalidInput,
+                    format!(
+                        "cannot back up `{}`: it has the name of its own backup or temporary file",
+                        filename.display()
+                    ),
+                ));
+            }
 
             fs::write(&tmp_name, formatted_text)?;
             fs::rename(filename, bk_name)?;
